@@ -4,7 +4,7 @@
 # demonstration fails with it and passes without), then runs our checks against /repo with the
 # change applied (reverted straight afterwards) and stores everything under /verif/seeded/<id>/.
 ID=$1; DEMO=$2; DEST=$3; CMD=$4; shift 4
-WT=/tmp/seed-$ID
+WT=${SEED_WT:-/tmp/seed-$ID}
 OUT=$WT/_out
 cd $WT || exit 2
 git checkout -q -- . ; git clean -fdq -e _out -e target
@@ -26,17 +26,16 @@ if [ $RC_WITH = 0 ] || [ $RC_WITHOUT != 0 ]; then echo "NOT CONFIRMED"; exit 1; 
 echo "== our checks against /repo with the change applied"
 RES=""
 for c in "$@"; do
-  r=$(/verif/tools/mutant.sh $OUT/patch.diff $c | tail -1); echo "$r"; RES="$RES$r\n"
+  r=$(${CHECKER:-/verif/tools/mutant.sh} $OUT/patch.diff $c | tail -1); echo "$r"; RES="$RES$r\n"
 done
-S=/verif/seeded/$ID
+S=/verif/seeded/${SEED_NAME:-$ID}
 mkdir -p $S/demo
 cp $OUT/patch.diff $S/patch.diff
 cp -r $OUT/demo/* $S/demo/
 cp $OUT/notes.md $S/notes.md 2>/dev/null
-python3 - "$ID" "$SUITE" "$RC_WITH" "$RC_WITHOUT" "$CMD" "$DEST" "$RES" <<'PY'
+python3 - "$ID" "$SUITE" "$RC_WITH" "$RC_WITHOUT" "$CMD" "$DEST" "$RES" "${SEED_NAME:-$ID}" <<'PY'
 import json,sys,re
-id_,suite,rcw,rcwo,cmd,dest,res=sys.argv[1:8]
-notes=open(f'/verif/seeded/{id_}/notes.md').read() if True else ''
+id_,suite,rcw,rcwo,cmd,dest,res,name=sys.argv[1:9]
 checks={}
 for line in res.split('\\n'):
     m=re.match(r'(C\d+): (\w+)(.*)',line)
@@ -51,6 +50,6 @@ meta={
  },
  'our_quick_checks_with_change_applied': checks,
 }
-json.dump(meta,open(f'/verif/seeded/{id_}/meta.json','w'),indent=1)
+json.dump(meta,open(f'/verif/seeded/{name}/meta.json','w'),indent=1)
 PY
 echo "stored in $S"
